@@ -82,6 +82,7 @@ def run(chk):
     # (2) exact masses from the complete tapes
     mass = {}
     laplace11 = []
+    laplace21 = []
     for l in res.replay:
         v = json.loads(l)
         key = (v["layer"], v["n"], v["d"])
@@ -91,6 +92,8 @@ def run(chk):
         mass[key][out] = mass[key].get(out, Fraction(0)) + w
         if key == ("laplace", 1, 1) and len(laplace11) < 4000:
             laplace11.append(v)
+        if key == ("laplace", 2, 1) and len(laplace21) < 4000:
+            laplace21.append(v)
     report = []
     eps = Decimal(10) ** -45
     for key in cases:
@@ -125,6 +128,21 @@ def run(chk):
                     tapes.append(laplace11[(k * 7919 + c * 104729 + rep * 31) % len(laplace11)]["tape"])
                     k += 1
                 noise.append({"t": t, "en": sens, "ed": 1, "agg": [(3 * c + rep) % 5 for c in range(ncoord)], "tapes": tapes})
+        # bounds at the top of the integer types: sensitivity 2*max_value = 2^64, 2^128, 2^128 + 2 with epsilon = max_value, so scale = 2
+        def limbs(n):
+            out = []
+            while n:
+                out.append(n & 4095)
+                n >>= 12
+            return out
+        if laplace21:
+            for fld, mx in [("Field64", 2 ** 63), ("Field64", 2 ** 63 + 5), ("Field128", 2 ** 127), ("Field128", 2 ** 127 + 1), ("Field128", 2 ** 100)]:
+                for rep in range(6 if thorough else 2):
+                    tapes = [laplace21[(k * 7919 + c * 104729 + rep * 31) % len(laplace21)]["tape"] for c in range(2)]
+                    k += 2
+                    noise.append({"t": {"kind": "L1BoundSum", "maxl": limbs(mx), "max_s": str(mx), "len": 2, "field": fld}, "en": 0, "ed": 1,
+                                  "enl": limbs(mx), "edl": [1], "en_s": str(mx), "ed_s": "1", "sa": 2, "sb": 1,
+                                  "agg": [(3 * c + rep) % 5 for c in range(2)], "tapes": tapes})
         nf = os.path.join(vlib.WORK, "c15_noise.ndjson")
         vlib.write_lines(nf, [json.dumps(x) for x in noise])
         r2 = vlib.run_tlc("MC_C15", "MC_C15_noise", workers=4, timeout=900, env={"C15_NOISE": nf, "C15_CASES": ""}, tag="c15n")
